@@ -36,7 +36,24 @@ def table_nn():
             "parquet": {"files": [5], "row_group": 5}}
 
 
+HUGE_N = 20000
+
+
+def table_huge():
+    # one file, one row group, ids in scrambled order: ORDER BY / GROUP BY id over it reach the front doors as ONE batch
+    # of up to 20000 rows (more than two 4096-row Flight messages)
+    n = HUGE_N
+    return {"name": "huge", "cols": [["id", "i64"], ["g", "i64"], ["s", "str"]],
+            "rows": [[(i * 7919) % n, i % 5, "h%d" % (i % 17)] for i in range(n)],
+            "parquet": {"files": [n], "row_group": n}}
+
+
+# "silent" = a test-owned TCP socket that accepts, never answers the /healthz probe (so the peer stays Unknown in
+# every member's view: listed by discovery, never reached) and answers 500 to anything else, counting the fragments
+# it is sent.  The probe timeout of these clusters is an hour, so Unknown does not decay into Down.
 CLUSTERS = {
+    "unk1": {"nodes": [{"data": "A"}, {"data": "silent"}], "probe_timeout_ms": 3600000},
+    "unk3": {"nodes": [{"data": "A"}, {"data": "A"}, {"data": "silent"}], "probe_timeout_ms": 3600000},
     "single": {"nodes": [{"data": "A"}]},
     "tri": {"nodes": [{"data": "A"}, {"data": "A"}, {"data": "A"}]},
     "duo": {"nodes": [{"data": "A"}, {"data": "A"}]},
@@ -49,8 +66,8 @@ CLUSTERS = {
 
 def setup_case(clusters=None):
     cl = {k: v for k, v in CLUSTERS.items() if clusters is None or k in clusters}
-    return {"op": "setup", "tables": [table_t(), table_big(10000), table_nn()],
-            "alt_tables": [table_t(), table_big(9000), table_nn()], "clusters": cl}
+    return {"op": "setup", "tables": [table_t(), table_big(10000), table_nn(), table_huge()],
+            "alt_tables": [table_t(), table_big(9000), table_nn(), table_huge()], "clusters": cl}
 
 
 # ----------------------------------------------------------------------------------------------
@@ -73,6 +90,8 @@ def gen_statement(rng):
         if rng.random() < 0.2:
             return "SELECT id, g FROM big WHERE id < %d ORDER BY id DESC LIMIT %d" % (rng.randint(10, 9000), rng.randint(1, 9)), fam
         return "SELECT %s FROM t%s" % (", ".join(cols), w), fam
+    if fam == "big" and rng.random() < 0.4:
+        return gen_single_batch(rng), fam
     if fam == "big":
         lo = rng.choice([0, 0, 1, 1807, 1808, 5903, 5904, 5905])     # 10000 - lo rows: 4096/4097 among them
         cols = rng.choice(["id, s", "*", "id", "id, g, v"])
@@ -104,6 +123,15 @@ def gen_statement(rng):
                            "SELEC k FROM t", "SELECT k FROM t WHERE", "SELECT t.k FROM big"]), fam
     return rng.choice(["SELECT * FROM nn", "SELECT s FROM nn", "SELECT k, x FROM nn WHERE k < 4", "SELECT k AS a, s AS a FROM t",
                        "SELECT k, k FROM t", "SELECT CAST(k AS DOUBLE) / 0 AS z FROM t", "SELECT s, k FROM nn WHERE k > 3"]), fam
+
+
+def gen_single_batch(rng):
+    """Statements whose result reaches the front door as ONE batch of 8192 .. 20000 rows (sort / aggregation output)"""
+    k = rng.choice([8192, 8193, 8194, 12288, 12289, 16385, HUGE_N, HUGE_N, rng.randint(8193, HUGE_N)])
+    return rng.choice(["SELECT id, s FROM huge WHERE id < %d ORDER BY id" % k,
+                       "SELECT id, g FROM huge WHERE id < %d ORDER BY id DESC" % k,
+                       "SELECT id, COUNT(*) AS c FROM huge WHERE id < %d GROUP BY id" % k,
+                       "SELECT id, MIN(s) AS ms, SUM(g) AS sg FROM huge WHERE id < %d GROUP BY id ORDER BY id" % k])
 
 
 FORCE_WORDS = ["1", "true", "yes", "force"]
